@@ -110,12 +110,15 @@ fn check_one_inner(cx: &Ctx, bi: usize, arg: &str, acc: &mut Acc, order: u64, wi
         }
         (Ok(p), Err(())) => {
             viol(acc, "accepts-trailing-slash", format!("join({:?}, {:?}) = Ok({:?}) although the argument ends with '/'", bstr, arg, p.as_str()), &bstr, arg, order);
+            // C12: trailing-slash joins are classified as invalid-path
+            acc.violate(Violation { property: "C12", signature: format!("kind|join|trailing-slash|accepted|{}", arg_class(arg)), summary: format!("join({:?}, {:?}) = Ok({:?}): a trailing-slash join is not classified as invalid-path", bstr, arg, p.as_str()), detail: J::obj().set("base", J::s(&bstr)).set("arg", J::s(arg)), order });
             return;
         }
         (Err(e), Err(())) => {
             let ei = crate::ops::ErrInfo::from_vfs(e);
             if ei.kind != crate::ops::Kind::InvalidPath {
                 viol(acc, "trailing-slash-kind", format!("join({:?}, {:?}) fails with {} instead of InvalidPath", bstr, arg, ei.kind.name()), &bstr, arg, order);
+                acc.violate(Violation { property: "C12", signature: format!("kind|join|trailing-slash|{}", ei.kind.name()), summary: format!("join({:?}, {:?}) fails with {} instead of InvalidPath", bstr, arg, ei.kind.name()), detail: J::obj().set("base", J::s(&bstr)).set("arg", J::s(arg)), order });
             }
             if ei.path == crate::errmon::PLACEHOLDER || ei.display.contains(crate::errmon::PLACEHOLDER) {
                 acc.violate(Violation { property: "C12", signature: "placeholder|join|InvalidPath".into(), summary: format!("join error carries the placeholder path: {}", ei.display), detail: J::obj().set("base", J::s(&bstr)).set("arg", J::s(arg)), order });
